@@ -26,6 +26,10 @@ package ice
 //@ owner C10 ice.Agent.gatherCandidateCancel loop
 //@ owner C10 ice.Agent.gatherCandidateDone loop
 //@ owner C10 ice.Agent.lastRenominationTime loop
+//@ owner C10 ice.Agent.urls loop
+//@ owner C10 ice.Agent.nominatedValue loop
+//@ owner C10 ice.controllingSelector.lastConfirmedNomination loop
+//@ owner C10 ice.CandidatePair.nominationValueOnBindingSuccess loop
 //@ owner C10 ice.controllingSelector.nominatedPair loop
 //@ owner C10 ice.controllingSelector.startTime loop
 //@ owner C10 ice.controlledSelector.lastNomination loop
@@ -34,7 +38,7 @@ package ice
 //@ owner C10 ice.CandidatePair.nominateOnBindingSuccess loop
 
 // Constructors: the object is not shared yet.
-//@ ownerinit ice.Agent in createAgentBase, newAgentFromConfig, newAgentWithConfig, WithLocalCredentials
+//@ ownerinit ice.Agent in createAgentBase, newAgentFromConfig, newAgentWithConfig, WithLocalCredentials, WithUrls
 //@ ownerinit ice.CandidatePair in newCandidatePair
 //@ ownerinit ice.controllingSelector in (*Agent).setSelector
 //@ ownerinit ice.controlledSelector in (*Agent).setSelector
